@@ -7,7 +7,7 @@ import Blots.Model.Cli
              | (jobj (h<key> json)*)                       -- members in document order
     fns    ::= (fns (h<source> (larg*) h<body>)*)          -- the strings that parse as a lambda
     event  ::= (expr ok|err|panic) | (comment)
-             | (out-ident h<name> ok|err|panic unbound)
+             | (out-ident h<name> err|panic unbound) | (out-ident h<name> ok unbound <value> p|u)
              | (out-ident h<name> ok|err|panic bound <value> p|u)   -- p = portable
              | (out-assign h<name> ok <value> p|u) | (out-assign h<name> err|panic)
 -/
@@ -38,7 +38,12 @@ def eventOfSx : Sx → Option Event
   | .list [.atom "expr", .atom r] => (resOfAtom r).map .expr
   | .list [.atom "comment"] => some .comment
   | .list [.atom "out-ident", .atom n, .atom r, .atom "unbound"] => do
-      pure (.outIdent (← decStr n) (← resOfAtom r) none true)
+      let res ← resOfAtom r
+      match res with
+      | .ok _ => none            -- a successful evaluation needs its value: next form
+      | o => pure (.outIdent (← decStr n) o none true)
+  | .list [.atom "out-ident", .atom n, .atom "ok", .atom "unbound", v, .atom p] => do
+      pure (.outIdent (← decStr n) (.ok (← Value.ofSx v)) none (← flagOfAtom p))
   | .list [.atom "out-ident", .atom n, .atom r, .atom "bound", v, .atom p] => do
       let val ← Value.ofSx v
       let res ← resOfAtom r
